@@ -305,3 +305,8 @@ def _tsc_limit(ct, tier, seed):
 
 contract('C08.runtime.tsc_limit', ['optiland/aberrations.py:Aberrations.TSC', 'optiland/aberrations.py:Aberrations._precalculations',
                                    'optiland/optic.py:Optic.trace_generic'], ['C08'], custom=_tsc_limit)(lambda c: None)
+
+
+# concrete inputs found by the defect-hunting sub-agents (bounded replay, see contracts/hunt.py)
+from . import hunt as _hunt  # noqa: E402
+_hunt.register('C08')
